@@ -47,7 +47,7 @@ NoCust == [loc |-> "none", k |-> 0, att |-> 0, pri |-> 0, dts |-> 0, mark |-> FA
            pass |-> 0]     \* pass: scans of its channel that ended while it sat there past its deadline (AQSDone)
 NewChan(t) == [t |-> t, st |-> "new", paused |-> FALSE, ppend |-> {}, emptying |-> FALSE, recv |-> 0, nreq |-> 0, nto |-> 0]
 NewClient == [c |-> "", tmo |-> 0, sample |-> 0, rdy |-> 0, pend |-> {}, ready |-> FALSE, sends |-> <<>>,
-              nfin |-> 0, nreq |-> 0, nmsg |-> 0, sigAt |-> 0, sigNow |-> 0, evalAt |-> 0]
+              nfin |-> 0, nreq |-> 0, nmsg |-> 0, sigAt |-> 0, sigNow |-> 0, evalAt |-> 0, closing |-> FALSE]
 StaleSlack == 1000000   \* microseconds: see AKRecv
 
 Init == /\ minfo = <<>> /\ tq = {} /\ owed = <<>> /\ copying = <<>>
@@ -217,6 +217,7 @@ AKEval(k, ready, rdy, inflight, paused, at) ==
   /\ Has(cl, k)
   /\ LET c == cl[k].c IN
        ready => /\ ~paused /\ rdy > 0 /\ inflight < rdy
+                /\ ~cl[k].closing
                 /\ rdy \in {cl[k].rdy} \cup cl[k].pend
                 /\ Has(chan, c) => (FALSE \in {chan[c].paused} \cup chan[c].ppend)
                 /\ Cardinality(HeldBy(k)) < rdy
@@ -402,6 +403,10 @@ AKSub(k, c) ==
   /\ cl' = IF Has(cl, k) THEN [cl EXCEPT ![k].c = c] ELSE cl
   /\ UNCHANGED <<minfo, tq, owed, copying, chan, top, cust, done, stash>>
 
+\* C03: once CLS has been processed the consumer is never again found ready for a message, whatever it sends (AKEval)
+AKCls(k) ==
+  /\ cl' = IF Has(cl, k) THEN [cl EXCEPT ![k].closing = TRUE] ELSE cl
+  /\ UNCHANGED <<minfo, tq, owed, copying, chan, top, cust, done, stash>>
 AKRdyBegin(k, n) ==
   /\ cl' = IF Has(cl, k) THEN [cl EXCEPT ![k].pend = @ \cup {n}] ELSE cl
   /\ UNCHANGED <<minfo, tq, owed, copying, chan, top, cust, done, stash>>
